@@ -34,10 +34,11 @@ package forward
 //@ ghost exHasResp map[int]bool
 //@ ghost exRcode map[int]int
 //@ ghost exResp map[int]*dns.Msg
+//@ ghost exErr map[int]error
 //@ interface Upstream method Exchange
-//@   modifies exCount, exUps[exCount], exFailed[exCount], exHasResp[exCount], exRcode[exCount], exResp[exCount]
+//@   modifies exCount, exUps[exCount], exFailed[exCount], exHasResp[exCount], exRcode[exCount], exResp[exCount], exErr[exCount]
 //@   ensures exCount == old(exCount) + 1 && exUps[old(exCount)] == this && exFailed[old(exCount)] == (err != nil) &&
-//@           exHasResp[old(exCount)] == (resp != nil) && exResp[old(exCount)] == resp && (resp != nil ==> exRcode[old(exCount)] == resp.Rcode)
+//@           exHasResp[old(exCount)] == (resp != nil) && exResp[old(exCount)] == resp && exErr[old(exCount)] == err && (resp != nil ==> exRcode[old(exCount)] == resp.Rcode)
 //@ interface Upstream method String
 //@   modifies nothing
 //@ interface MetricsListener method *
@@ -71,18 +72,19 @@ package forward
 //@ func (*Handler).exchange
 //@   property C17
 //@   requires HD(h) && u != nil
-//@   modifies exCount, exUps[exCount], exFailed[exCount], exHasResp[exCount], exRcode[exCount], exResp[exCount]
-//@   ensures exCount == old(exCount) + 1 && exUps[old(exCount)] == u && exFailed[old(exCount)] == (err != nil) && exResp[old(exCount)] == resp
+//@   modifies exCount, exUps[exCount], exFailed[exCount], exHasResp[exCount], exRcode[exCount], exResp[exCount], exErr[exCount]
+//@   ensures exCount == old(exCount) + 1 && exUps[old(exCount)] == u && exFailed[old(exCount)] == (err != nil) && exResp[old(exCount)] == resp && exErr[old(exCount)] == err
 
 //@ func (*Handler).ServeDNS
 //@   property C17
 //@   requires HD(h) && rw != nil && req != nil
-//@   modifies lastPicked, exCount, exUps, exFailed, exHasResp, exRcode, exResp, dns.Msg.*, dns.OPT.*, allelems(dns.RR), allelems(dns.EDNS0), allelems(byte),
+//@   modifies lastPicked, exCount, exUps, exFailed, exHasResp, exRcode, exResp, exErr, dns.Msg.*, dns.OPT.*, allelems(dns.RR), allelems(dns.EDNS0), allelems(byte),
 //@            dns.EDNS0_PADDING.Padding, dns.EDNS0_TCP_KEEPALIVE.Timeout, truncSize, writes, wroteReq, wroteResp, wroteId, wroteRcode, wroteNQ, wroteQ
 //@   ensures at-most-two-tries: exCount <= old(exCount) + 2
 //@   ensures main-first: lastPicked != nil ==> exCount >= old(exCount) + 1 && exUps[old(exCount)] == lastPicked
 //@   ensures fallback-only-after-main-failed: lastPicked != nil && exCount == old(exCount) + 2 ==> exFailed[old(exCount)] &&
 //@             (exists i int :: 0 <= i && i < len(h.fallbacks) && h.fallbacks[i] == exUps[old(exCount) + 1])
+//@   ensures fallback-only-on-network-error: lastPicked != nil && exCount == old(exCount) + 2 ==> (exists t int :: errAs(exErr[old(exCount)], t))
 //@   ensures no-healthy-main-goes-to-fallback: lastPicked == nil ==> exCount <= old(exCount) + 1 &&
 //@             (exCount == old(exCount) + 1 ==> (exists i int :: 0 <= i && i < len(h.fallbacks) && h.fallbacks[i] == exUps[old(exCount)]))
 //@   ensures without-fallbacks-single-try: len(h.fallbacks) == 0 ==> exCount <= old(exCount) + 1
@@ -93,7 +95,7 @@ package forward
 //@ func checkUpstream
 //@   property C17
 //@   requires ups != nil && req != nil
-//@   modifies exCount, exUps[exCount], exFailed[exCount], exHasResp[exCount], exRcode[exCount], exResp[exCount]
+//@   modifies exCount, exUps[exCount], exFailed[exCount], exHasResp[exCount], exRcode[exCount], exResp[exCount], exErr[exCount]
 //@   ensures exCount == old(exCount) + 1 && exUps[old(exCount)] == ups
 //@   ensures healthy-iff-noerror-reply: (err == nil) == (!exFailed[old(exCount)] && exHasResp[old(exCount)] && exRcode[old(exCount)] == 0)
 
@@ -102,7 +104,7 @@ package forward
 //@ func (*Handler).healthcheckUpstream
 //@   property C17
 //@   requires h != nil && h.metrics != nil && h.logger != nil && upsStatus != nil && upsStatus.upstream != nil && req != nil
-//@   modifies upsStatus.lastFailedHealthcheck, hcInBackoff[upsStatus], hcDown[upsStatus], exCount, exUps[exCount], exFailed[exCount], exHasResp[exCount], exRcode[exCount], exResp[exCount]
+//@   modifies upsStatus.lastFailedHealthcheck, hcInBackoff[upsStatus], hcDown[upsStatus], exCount, exUps[exCount], exFailed[exCount], exHasResp[exCount], exRcode[exCount], exResp[exCount], exErr[exCount]
 //@   ghostset hcInBackoff[upsStatus] = inBackoff
 //@   ghostset hcDown[upsStatus] = (err != nil)
 //@   ensures hcInBackoff[upsStatus] == inBackoff && hcDown[upsStatus] == (err != nil)
@@ -122,7 +124,7 @@ package forward
 //@ func (*Handler).healthcheck
 //@   property C17
 //@   requires HD(h) && distinctStatuses(h)
-//@   modifies h.activeUpstreams, upstreamStatus.lastFailedHealthcheck, hcInBackoff, hcDown, exCount, exUps, exFailed, exHasResp, exRcode, exResp
+//@   modifies h.activeUpstreams, upstreamStatus.lastFailedHealthcheck, hcInBackoff, hcDown, exCount, exUps, exFailed, exHasResp, exRcode, exResp, exErr
 //@   ensures not-used-while-in-backoff-or-down: forall j int :: 0 <= j && j < len(h.activeUpstreams) ==>
 //@             (exists i int :: 0 <= i && i < len(h.upstreams) && h.upstreams[i].upstream == h.activeUpstreams[j] &&
 //@               !hcInBackoff[h.upstreams[i]] && !hcDown[h.upstreams[i]])
@@ -138,7 +140,7 @@ package forward
 //@ func (*Handler).refresh
 //@   property C17
 //@   requires HD(h) && distinctStatuses(h)
-//@   modifies h.activeUpstreams, upstreamStatus.lastFailedHealthcheck, hcInBackoff, hcDown, exCount, exUps, exFailed, exHasResp, exRcode, exResp
+//@   modifies h.activeUpstreams, upstreamStatus.lastFailedHealthcheck, hcInBackoff, hcDown, exCount, exUps, exFailed, exHasResp, exRcode, exResp, exErr
 //@   loop 1 invariant -1 <= #i && #i < len(h.fallbacks)
 //@   ensures never-out-of-rotation-without-fallbacks: len(h.fallbacks) == 0 ==> h.activeUpstreams == old(h.activeUpstreams) && exCount == old(exCount)
 
